@@ -55,6 +55,8 @@ pub open spec fn wf_abs(a: AbsTok) -> bool {
     &&& temp_free(a.state) ==> a.temp.len() == 0
     &&& forall|i: int| 0 <= i < a.temp.len() ==> #[trigger] a.temp[i] != '\0'
     &&& a.cr.is_some() ==> cr_host_state(a.state) && !a.recons
+    &&& (a.state is MarkupDeclarationOpen ==> mdo_viable(a, a.temp) && !a.recons)
+    &&& (a.state is AfterDoctypeName ==> adn_viable(a.temp) && !a.recons)
 }
 impl Tokenizer {
     pub closed spec fn abs(&self) -> AbsTok {
@@ -83,7 +85,13 @@ impl Tokenizer {
     pub closed spec fn same_config(&self, o: &Tokenizer) -> bool {
         self.opts == o.opts && self.at_eof.v == o.at_eof.v && self.discard_bom.v == o.discard_bom.v
     }
-    pub closed spec fn wf(&self) -> bool { wf_abs(self.abs()) }
+    pub closed spec fn wf(&self) -> bool {
+        &&& wf_abs(self.abs())
+        // a pending CR was the last character consumed: the look-ahead buffer is empty and a re-consumed
+        // character is that line break
+        &&& (self.ignore_lf.v && (self.state.v is MarkupDeclarationOpen || self.state.v is AfterDoctypeName) ==> self.temp_buf.v@.len() == 0)
+        &&& (self.ignore_lf.v && self.reconsume.v ==> self.current_char.v == '\n')
+    }
     /// The simulation measure: the final abstract state the WHATWG machine reaches on everything
     /// that is still pending.  Every operation of the tokenizer must leave it unchanged.
     pub closed spec fn sim(&self, q: &BufferQueue) -> AbsTok {
@@ -93,10 +101,16 @@ impl Tokenizer {
     /// termination measure of the loops inside `step`: characters still to be delivered
     pub closed spec fn fuel(&self, q: &BufferQueue) -> int {
         (if self.reconsume.v { 1int } else { 0int }) + q.view().len()
+            + (if self.state.v is MarkupDeclarationOpen || self.state.v is AfterDoctypeName { self.temp_buf.v@.len() as int } else { 0int })
     }
+    pub closed spec fn is_at_eof(&self) -> bool { self.at_eof.v }
     /// fields outside the abstraction that steps may change
     pub closed spec fn aux(&self) -> Aux {
         Aux { cur: self.current_char.v, ig: self.ignore_lf.v }
+    }
+    /// the simulation measure including, once end() has been called, what end of input still produces
+    pub closed spec fn simx(&self, q: &BufferQueue) -> AbsTok {
+        if self.at_eof.v { eof_close(self.sim(q)) } else { self.sim(q) }
     }
     /// line-counter head-room (machine arithmetic): the line counter cannot overflow on the pending input
     pub closed spec fn line_ok(&self, q: &BufferQueue) -> bool {
@@ -308,5 +322,772 @@ pub proof fn lemma_run_attr(a: AbsTok, k: AttrValueKind, x: Seq<char>)
         }
         lemma_run_attr(push_value(a, x[0]), k, x.drop_first());
         assert(a.attr_value.push(x[0]) + x.drop_first() =~= a.attr_value + x);
+    }
+}
+
+// ======================================================================================
+// look-ahead (markup declaration open / after DOCTYPE name): relating Tokenizer::eat to s_mdo / s_after_doctype_name
+// ======================================================================================
+pub open spec fn ch_eq(c: char, p: char, ci: bool) -> bool { if ci { lower(c) == p } else { c == p } }
+/// the stream n begins with a full match of p
+pub open spec fn m_true(n: Seq<char>, p: Seq<char>, ci: bool) -> bool { n.len() >= p.len() && full_match(n.take(p.len() as int), p, ci) }
+/// n is a proper prefix of a match of p (more input is needed)
+pub open spec fn m_none(n: Seq<char>, p: Seq<char>, ci: bool) -> bool { n.len() < p.len() && pre_match(n, p, ci) }
+/// n differs from p at some position
+pub open spec fn m_false(n: Seq<char>, p: Seq<char>, ci: bool) -> bool { !m_true(n, p, ci) && !m_none(n, p, ci) }
+/// position of the first mismatch
+pub open spec fn first_mismatch(n: Seq<char>, p: Seq<char>, ci: bool) -> int
+    decreases n.len()
+{
+    if n.len() == 0 || p.len() == 0 || !ch_eq(n[0], p[0], ci) { 0 } else { 1 + first_mismatch(n.drop_first(), p.drop_first(), ci) }
+}
+pub open spec fn pat_ok(p: Seq<char>) -> bool {
+    p.len() > 0 && forall|i: int| 0 <= i < p.len() ==> (#[trigger] p[i] as u32) < 128 && p[i] != '\n' && p[i] != '\r' && p[i] != '>'
+        && p[i] != '\t' && p[i] != ' ' && p[i] != '\x0C'
+}
+/// a pattern compared ASCII-case-insensitively is written in lower case
+pub open spec fn pat_lower(p: Seq<char>) -> bool { forall|i: int| 0 <= i < p.len() ==> !is_upper(#[trigger] p[i]) }
+pub proof fn lemma_pre_match_take(l: Seq<char>, p: Seq<char>, ci: bool, k: int)
+    requires pre_match(l, p, ci), 0 <= k <= l.len(),
+    ensures pre_match(l.take(k), p, ci),
+{
+    assert forall|i: int| 0 <= i < l.take(k).len() implies (if ci { lower(#[trigger] l.take(k)[i]) == p[i] } else { l.take(k)[i] == p[i] }) by {
+        assert(l.take(k)[i] == l[i]);
+    }
+}
+
+pub open spec fn mdo_viable(a: AbsTok, l: Seq<char>) -> bool {
+    (l.len() < 2 && pre_match(l, pat_dashdash(), false)) || (l.len() < 7 && pre_match(l, pat_doctype(), true))
+    || (sink_cdata_ok(a.out) && l.len() < 7 && pre_match(l, pat_cdata(), false))
+}
+pub open spec fn mdo_hit(a: AbsTok, l: Seq<char>) -> bool {
+    full_match(l, pat_dashdash(), false) || full_match(l, pat_doctype(), true) || (sink_cdata_ok(a.out) && full_match(l, pat_cdata(), false))
+}
+pub open spec fn bogus_init(a: AbsTok) -> AbsTok { st(clear_comment(clear_temp(a)), State::BogusComment) }
+pub open spec fn mdo_target(a: AbsTok, l: Seq<char>) -> AbsTok {
+    if full_match(l, pat_dashdash(), false) { st(clear_comment(clear_temp(a)), State::CommentStart) }
+    else if full_match(l, pat_doctype(), true) { st(clear_temp(a), State::Doctype) }
+    else { st(clear_temp(a), State::CdataSection) }
+}
+pub proof fn lemma_pats()
+    ensures
+        pat_dashdash().len() == 2, pat_dashdash()[0] == '-', pat_dashdash()[1] == '-',
+        pat_doctype().len() == 7, pat_doctype()[0] == 'd', pat_doctype()[1] == 'o', pat_doctype()[2] == 'c', pat_doctype()[3] == 't',
+        pat_doctype()[4] == 'y', pat_doctype()[5] == 'p', pat_doctype()[6] == 'e',
+        pat_cdata().len() == 7, pat_cdata()[0] == '[', pat_cdata()[1] == 'C', pat_cdata()[2] == 'D', pat_cdata()[3] == 'A',
+        pat_cdata()[4] == 'T', pat_cdata()[5] == 'A', pat_cdata()[6] == '[',
+        pat_public().len() == 6, pat_public()[0] == 'p', pat_public()[1] == 'u', pat_public()[2] == 'b', pat_public()[3] == 'l',
+        pat_public()[4] == 'i', pat_public()[5] == 'c',
+        pat_system().len() == 6, pat_system()[0] == 's', pat_system()[1] == 'y', pat_system()[2] == 's', pat_system()[3] == 't',
+        pat_system()[4] == 'e', pat_system()[5] == 'm',
+        pat_ok(pat_dashdash()), pat_ok(pat_doctype()), pat_ok(pat_cdata()), pat_ok(pat_public()), pat_ok(pat_system()),
+        pat_lower(pat_dashdash()), pat_lower(pat_doctype()), pat_lower(pat_public()), pat_lower(pat_system()),
+{
+}
+/// a viable look-ahead contains only pattern characters: none of them is '\n', '\r', '>' or NUL
+pub proof fn lemma_viable_chars(l: Seq<char>, p: Seq<char>, ci: bool, i: int)
+    requires pre_match(l, p, ci), 0 <= i < l.len(),
+        forall|j: int| 0 <= j < p.len() ==> #[trigger] p[j] != '\n' && p[j] != '\r' && p[j] != '>' && p[j] != '\0' && (ci ==> !is_upper(p[j])),
+    ensures l[i] != '\n', l[i] != '\r', l[i] != '>', l[i] != '\0',
+{
+    assert(if ci { lower(l[i]) == p[i] } else { l[i] == p[i] });
+}
+pub proof fn lemma_mdo_feed(a: AbsTok, p: Seq<char>)
+    requires a.state == State::MarkupDeclarationOpen, a.cr is None, !a.recons, mdo_viable(a, a.temp + p),
+    ensures run(a, p) == (AbsTok { temp: a.temp + p, ..a }),
+    decreases p.len(),
+{
+    reveal_with_fuel(run, 2);
+    lemma_pats();
+    if p.len() == 0 {
+        assert(a.temp + p =~= a.temp);
+    } else {
+        let c = p[0];
+        let n = a.temp + p;
+        let l = a.temp.push(c);
+        assert(l =~= n.take((a.temp.len() + 1) as int));
+        if pre_match(n, pat_dashdash(), false) && n.len() < 2 {
+            lemma_pre_match_take(n, pat_dashdash(), false, (a.temp.len() + 1) as int);
+            lemma_viable_chars(n, pat_dashdash(), false, a.temp.len() as int);
+        } else if pre_match(n, pat_doctype(), true) && n.len() < 7 {
+            lemma_pre_match_take(n, pat_doctype(), true, (a.temp.len() + 1) as int);
+            lemma_viable_chars(n, pat_doctype(), true, a.temp.len() as int);
+        } else {
+            lemma_pre_match_take(n, pat_cdata(), false, (a.temp.len() + 1) as int);
+            lemma_viable_chars(n, pat_cdata(), false, a.temp.len() as int);
+        }
+        assert(n[a.temp.len() as int] == c);
+        assert(c != '\n');
+        reveal(spec_step); reveal(s_mdo);
+        assert(mdo_viable(a, l));
+        assert(!mdo_hit(a, l)) by {
+            assert(l[0] == n[0]);
+        }
+        assert(spec_step(a, c) == push_temp(a, c));
+        assert(push_temp(a, c).temp + p.drop_first() =~= a.temp + p);
+        lemma_mdo_feed(push_temp(a, c), p.drop_first());
+    }
+}
+
+pub proof fn lemma_mdo_hit(a: AbsTok, p: Seq<char>)
+    requires a.state == State::MarkupDeclarationOpen, a.cr is None, !a.recons, p.len() > 0,
+        mdo_viable(a, a.temp), mdo_hit(a, a.temp + p),
+    ensures run(a, p) == mdo_target(a, a.temp + p),
+{
+    lemma_pats();
+    let n = a.temp + p;
+    let q = p.drop_last();
+    let c = p.last();
+    assert(p =~= q + seq![c]);
+    assert(a.temp + q =~= n.take(n.len() - 1));
+    // n.take(len-1) is a proper viable prefix of the pattern n matches
+    if full_match(n, pat_dashdash(), false) { lemma_pre_match_take(n, pat_dashdash(), false, n.len() - 1); }
+    else if full_match(n, pat_doctype(), true) { lemma_pre_match_take(n, pat_doctype(), true, n.len() - 1); }
+    else { lemma_pre_match_take(n, pat_cdata(), false, n.len() - 1); }
+    lemma_mdo_feed(a, q);
+    let b = AbsTok { temp: a.temp + q, ..a };
+    lemma_run_concat(a, q, seq![c]);
+    reveal_with_fuel(run, 2);
+    assert(seq![c].drop_first() =~= Seq::<char>::empty());
+    assert(b.temp.push(c) =~= n);
+    assert(n[n.len() - 1] == c);
+    assert(c != '\n') by {
+        if full_match(n, pat_dashdash(), false) { lemma_viable_chars(n, pat_dashdash(), false, n.len() - 1); }
+        else if full_match(n, pat_doctype(), true) { lemma_viable_chars(n, pat_doctype(), true, n.len() - 1); }
+        else { lemma_viable_chars(n, pat_cdata(), false, n.len() - 1); }
+    }
+    reveal(spec_step); reveal(s_mdo);
+    assert(n[0] == n[0]);
+    assert(spec_step(b, c) == mdo_target(a, n));
+}
+
+/// in the bogus comment state, characters that were already consumed (and counted) are re-processed;
+/// only the last of them can be '>' or a line break
+pub proof fn lemma_bogus_reprocess(b: AbsTok, l: Seq<char>)
+    requires b.state == State::BogusComment, b.cr is None, !b.recons, l.len() >= 1,
+        forall|i: int| 0 <= i < l.len() - 1 ==> #[trigger] l[i] != '>' && l[i] != '\n',
+    ensures run(b, l) == reprocess(pre_step(b, l.last()), l),
+    decreases l.len(),
+{
+    reveal_with_fuel(run, 2); reveal_with_fuel(reprocess, 2);
+    reveal(spec_step); reveal(s_simple); reveal(s_bogus_comment);
+    let c0 = l[0];
+    if l.len() == 1 {
+        assert(l.drop_first() =~= Seq::<char>::empty());
+    } else {
+        let l2 = l.drop_first();
+        assert(c0 != '>' && c0 != '\n');
+        let b2 = s_bogus_comment(b, c0);
+        assert(spec_step(b, c0) == b2);
+        assert forall|i: int| 0 <= i < l2.len() - 1 implies #[trigger] l2[i] != '>' && l2[i] != '\n' by {
+            assert(l2[i] == l[i + 1]);
+        }
+        lemma_bogus_reprocess(b2, l2);
+        assert(l2.last() == l.last());
+        assert(s_simple(pre_step(b, l.last()), c0) == pre_step(b2, l.last()));
+    }
+}
+
+pub proof fn lemma_mdo_miss(a: AbsTok, p: Seq<char>)
+    requires a.state == State::MarkupDeclarationOpen, a.cr is None, !a.recons, mdo_viable(a, a.temp),
+        m_false(a.temp + p, pat_dashdash(), false), m_false(a.temp + p, pat_doctype(), true),
+        sink_cdata_ok(a.out) ==> m_false(a.temp + p, pat_cdata(), false),
+    ensures run(a, p) == run(bogus_init(a), a.temp + p),
+    decreases p.len(),
+{
+    lemma_pats();
+    let n = a.temp + p;
+    if p.len() == 0 {
+        assert(n =~= a.temp);
+        // a viable look-ahead is a proper prefix match of one of the patterns: contradiction
+        assert(m_none(n, pat_dashdash(), false) || m_none(n, pat_doctype(), true) || (sink_cdata_ok(a.out) && m_none(n, pat_cdata(), false)));
+    } else {
+        let c = p[0];
+        let l = a.temp.push(c);
+        let rest = p.drop_first();
+        assert(n =~= l + rest);
+        assert(l =~= n.take(l.len() as int));
+        reveal_with_fuel(run, 2);
+        reveal(spec_step); reveal(s_mdo);
+        let a1 = pre_step(a, c);
+        if mdo_hit(a, l) {
+            // then n starts with a full match: contradiction with m_false
+            assert(n.take(l.len() as int) =~= l);
+            assert(false);
+        } else if mdo_viable(a, l) {
+            assert(c != '\n') by {
+                if pre_match(l, pat_dashdash(), false) && l.len() < 2 { lemma_viable_chars(l, pat_dashdash(), false, l.len() - 1); }
+                else if pre_match(l, pat_doctype(), true) && l.len() < 7 { lemma_viable_chars(l, pat_doctype(), true, l.len() - 1); }
+                else { lemma_viable_chars(l, pat_cdata(), false, l.len() - 1); }
+            }
+            let a2 = push_temp(a, c);
+            assert(spec_step(a, c) == a2);
+            assert(a2.temp + rest =~= n);
+            lemma_mdo_miss(a2, rest);
+            assert(bogus_init(a2) == bogus_init(a));
+        } else {
+            // the look-ahead fails at this character: the spec re-processes l as a bogus comment
+            let b = bogus_init(a);
+            assert(spec_step(a, c) == reprocess(st(clear_comment(clear_temp(a1)), State::BogusComment), l));
+            assert forall|i: int| 0 <= i < l.len() - 1 implies #[trigger] l[i] != '>' && l[i] != '\n' by {
+                assert(l[i] == a.temp[i]);
+                if pre_match(a.temp, pat_dashdash(), false) && a.temp.len() < 2 { lemma_viable_chars(a.temp, pat_dashdash(), false, i); }
+                else if pre_match(a.temp, pat_doctype(), true) && a.temp.len() < 7 { lemma_viable_chars(a.temp, pat_doctype(), true, i); }
+                else { lemma_viable_chars(a.temp, pat_cdata(), false, i); }
+            }
+            lemma_bogus_reprocess(b, l);
+            assert(l.last() == c);
+            assert(pre_step(b, c) == st(clear_comment(clear_temp(a1)), State::BogusComment));
+            lemma_run_concat(b, l, rest);
+        }
+    }
+}
+
+// ---- after DOCTYPE name ----
+pub open spec fn adn_viable(l: Seq<char>) -> bool {
+    l.len() < 6 && (pre_match(l, pat_public(), true) || pre_match(l, pat_system(), true))
+}
+pub open spec fn adn_hit(l: Seq<char>) -> bool { full_match(l, pat_public(), true) || full_match(l, pat_system(), true) }
+pub open spec fn adn_target(a: AbsTok, l: Seq<char>) -> AbsTok {
+    if full_match(l, pat_public(), true) { st(clear_temp(a), State::AfterDoctypeKeyword(DoctypeIdKind::Public)) }
+    else { st(clear_temp(a), State::AfterDoctypeKeyword(DoctypeIdKind::System)) }
+}
+pub open spec fn bogusdt_init(a: AbsTok) -> AbsTok { st(force_quirks(clear_temp(a)), State::BogusDoctype) }
+
+pub proof fn lemma_adn_feed(a: AbsTok, p: Seq<char>)
+    requires a.state == State::AfterDoctypeName, a.cr is None, !a.recons, adn_viable(a.temp + p),
+    ensures run(a, p) == (AbsTok { temp: a.temp + p, ..a }),
+    decreases p.len(),
+{
+    reveal_with_fuel(run, 2);
+    lemma_pats();
+    if p.len() == 0 {
+        assert(a.temp + p =~= a.temp);
+    } else {
+        let c = p[0];
+        let n = a.temp + p;
+        let l = a.temp.push(c);
+        assert(l =~= n.take((a.temp.len() + 1) as int));
+        if pre_match(n, pat_public(), true) {
+            lemma_pre_match_take(n, pat_public(), true, (a.temp.len() + 1) as int);
+            lemma_viable_chars(n, pat_public(), true, a.temp.len() as int);
+        } else {
+            lemma_pre_match_take(n, pat_system(), true, (a.temp.len() + 1) as int);
+            lemma_viable_chars(n, pat_system(), true, a.temp.len() as int);
+        }
+        assert(n[a.temp.len() as int] == c);
+        assert(c != '\n' && c != '>' && !is_ws(c)) by {
+            if pre_match(n, pat_public(), true) { assert(lower(c) == pat_public()[a.temp.len() as int]); }
+            else { assert(lower(c) == pat_system()[a.temp.len() as int]); }
+        }
+        reveal(spec_step); reveal(s_after_doctype_name);
+        assert(adn_viable(l));
+        assert(!adn_hit(l));
+        assert(spec_step(a, c) == push_temp(a, c));
+        assert(push_temp(a, c).temp + p.drop_first() =~= a.temp + p);
+        lemma_adn_feed(push_temp(a, c), p.drop_first());
+    }
+}
+pub proof fn lemma_adn_hit(a: AbsTok, p: Seq<char>)
+    requires a.state == State::AfterDoctypeName, a.cr is None, !a.recons, p.len() > 0,
+        adn_viable(a.temp), adn_hit(a.temp + p),
+    ensures run(a, p) == adn_target(a, a.temp + p),
+{
+    lemma_pats();
+    let n = a.temp + p;
+    let q = p.drop_last();
+    let c = p.last();
+    assert(p =~= q + seq![c]);
+    assert(a.temp + q =~= n.take(n.len() - 1));
+    if full_match(n, pat_public(), true) { lemma_pre_match_take(n, pat_public(), true, n.len() - 1); }
+    else { lemma_pre_match_take(n, pat_system(), true, n.len() - 1); }
+    lemma_adn_feed(a, q);
+    let b = AbsTok { temp: a.temp + q, ..a };
+    lemma_run_concat(a, q, seq![c]);
+    reveal_with_fuel(run, 2);
+    assert(seq![c].drop_first() =~= Seq::<char>::empty());
+    assert(b.temp.push(c) =~= n);
+    assert(n[n.len() - 1] == c);
+    assert(c != '\n' && c != '>' && !is_ws(c)) by {
+        if full_match(n, pat_public(), true) { assert(lower(c) == pat_public()[n.len() - 1]); }
+        else { assert(lower(c) == pat_system()[n.len() - 1]); }
+    }
+    reveal(spec_step); reveal(s_after_doctype_name);
+    assert(b.temp.len() == 5);
+    assert(spec_step(b, c) == adn_target(a, n));
+}
+/// bogus DOCTYPE: already-consumed characters are re-processed; only the last one can be '>' or a line break
+pub proof fn lemma_bogusdt_reprocess(b: AbsTok, l: Seq<char>)
+    requires b.state == State::BogusDoctype, b.cr is None, !b.recons, l.len() >= 1,
+        forall|i: int| 0 <= i < l.len() - 1 ==> #[trigger] l[i] != '>' && l[i] != '\n',
+    ensures run(b, l) == reprocess(pre_step(b, l.last()), l),
+    decreases l.len(),
+{
+    reveal_with_fuel(run, 2); reveal_with_fuel(reprocess, 2);
+    reveal(spec_step); reveal(s_simple); reveal(s_bogus_doctype);
+    let c0 = l[0];
+    if l.len() == 1 {
+        assert(l.drop_first() =~= Seq::<char>::empty());
+    } else {
+        let l2 = l.drop_first();
+        assert(c0 != '>' && c0 != '\n');
+        assert(spec_step(b, c0) == b);
+        assert forall|i: int| 0 <= i < l2.len() - 1 implies #[trigger] l2[i] != '>' && l2[i] != '\n' by {
+            assert(l2[i] == l[i + 1]);
+        }
+        lemma_bogusdt_reprocess(b, l2);
+        assert(l2.last() == l.last());
+        assert(s_simple(pre_step(b, l.last()), c0) == pre_step(b, l.last()));
+    }
+}
+/// neither keyword matches: the whole look-ahead is handled by the bogus DOCTYPE state
+pub proof fn lemma_adn_miss(a: AbsTok, p: Seq<char>)
+    requires a.state == State::AfterDoctypeName, a.cr is None, !a.recons, adn_viable(a.temp),
+        m_false(a.temp + p, pat_public(), true), m_false(a.temp + p, pat_system(), true),
+        a.temp.len() == 0 ==> p.len() > 0 && !is_ws(p[0]) && p[0] != '>',
+    ensures run(a, p) == run(bogusdt_init(a), a.temp + p),
+    decreases p.len(),
+{
+    lemma_pats();
+    let n = a.temp + p;
+    if p.len() == 0 {
+        assert(n =~= a.temp);
+        assert(m_none(n, pat_public(), true) || m_none(n, pat_system(), true));
+    } else {
+        let c = p[0];
+        let l = a.temp.push(c);
+        let rest = p.drop_first();
+        assert(n =~= l + rest);
+        assert(l =~= n.take(l.len() as int));
+        reveal_with_fuel(run, 2);
+        reveal(spec_step); reveal(s_after_doctype_name);
+        let a1 = pre_step(a, c);
+        if a.temp.len() > 0 || (!is_ws(c) && c != '>') {
+            if adn_hit(l) {
+                assert(n.take(l.len() as int) =~= l);
+                assert(false);
+            } else if adn_viable(l) {
+                assert(c != '\n') by {
+                    if pre_match(l, pat_public(), true) { lemma_viable_chars(l, pat_public(), true, l.len() - 1); }
+                    else { lemma_viable_chars(l, pat_system(), true, l.len() - 1); }
+                }
+                let a2 = push_temp(a, c);
+                assert(spec_step(a, c) == a2);
+                assert(a2.temp + rest =~= n);
+                lemma_adn_miss(a2, rest);
+                assert(bogusdt_init(a2) == bogusdt_init(a));
+            } else {
+                let b = bogusdt_init(a);
+                assert(spec_step(a, c) == reprocess(st(force_quirks(clear_temp(a1)), State::BogusDoctype), l));
+                assert forall|i: int| 0 <= i < l.len() - 1 implies #[trigger] l[i] != '>' && l[i] != '\n' by {
+                    assert(l[i] == a.temp[i]);
+                    if pre_match(a.temp, pat_public(), true) { lemma_viable_chars(a.temp, pat_public(), true, i); }
+                    else { lemma_viable_chars(a.temp, pat_system(), true, i); }
+                }
+                lemma_bogusdt_reprocess(b, l);
+                assert(l.last() == c);
+                assert(pre_step(b, c) == st(force_quirks(clear_temp(a1)), State::BogusDoctype));
+                lemma_run_concat(b, l, rest);
+            }
+        }
+    }
+}
+/// moving the look-ahead buffer back in front of the pending input does not change what the machine computes
+pub proof fn lemma_unlook(a: AbsTok, p: Seq<char>)
+    requires a.cr is None, !a.recons,
+        (a.state == State::MarkupDeclarationOpen && mdo_viable(a, a.temp)) || (a.state == State::AfterDoctypeName && adn_viable(a.temp)),
+    ensures run(a, p) == run(clear_temp(a), a.temp + p),
+{
+    let b = clear_temp(a);
+    assert(b.temp + a.temp =~= a.temp);
+    if a.state == State::MarkupDeclarationOpen { lemma_mdo_feed(b, a.temp); } else { lemma_adn_feed(b, a.temp); }
+    assert((AbsTok { temp: b.temp + a.temp, ..b }) == a);
+    lemma_run_concat(b, a.temp, p);
+}
+
+// ---- Tokenizer::eat: from BufferQueue::eat's byte-level answer to the character-level look-ahead relation ----
+/// the comparison function is u8::eq_ignore_ascii_case (ci) or u8::eq (!ci)
+pub open spec fn eq_is<F: Fn(&u8, &u8) -> bool>(eq: F, ci: bool) -> bool {
+    (forall|a: &u8, b: &u8| #[trigger] eq.requires((a, b)))
+    && (forall|a: u8, b: u8, r: bool| #[trigger] eq.ensures((&a, &b), r) ==> r == (if ci { lower_u8(a) == lower_u8(b) } else { a == b }))
+}
+/// ASSUMED: the UTF-8 encoding of an ASCII string is its characters (links vstd's str::spec_bytes to the character view)
+#[verifier::external_body]
+pub proof fn axiom_ascii_bytes(s: &str)
+    requires forall|i: int| 0 <= i < s@.len() ==> (#[trigger] s@[i] as u32) < 128,
+    ensures s.spec_bytes().len() == s@.len(), forall|i: int| 0 <= i < s@.len() ==> #[trigger] s.spec_bytes()[i] == s@[i] as u8,
+{}
+pub open spec fn look_viable(a: AbsTok) -> bool {
+    a.cr is None && !a.recons
+    && ((a.state == State::MarkupDeclarationOpen && mdo_viable(a, a.temp)) || (a.state == State::AfterDoctypeName && adn_viable(a.temp)))
+}
+pub proof fn lemma_utf8_after_ascii(s: Seq<char>, k: nat)
+    requires k < s.len(), forall|i: int| 0 <= i < k ==> (#[trigger] s[i] as u32) < 128,
+    ensures
+        k < utf8(s).len(),
+        forall|i: int| 0 <= i < k ==> #[trigger] utf8(s)[i] == s[i] as u8,
+        (s[k as int] as u32) < 128 ==> utf8(s)[k as int] == s[k as int] as u8,
+        (s[k as int] as u32) >= 128 ==> utf8(s)[k as int] >= 128,
+    decreases k,
+{
+    lemma_enc(s[0]);
+    assert(utf8(s) =~= enc(s[0]) + utf8(s.drop_first()));
+    if k > 0 {
+        assert forall|i: int| 0 <= i < k - 1 implies (#[trigger] s.drop_first()[i] as u32) < 128 by { assert(s.drop_first()[i] == s[i + 1]); }
+        lemma_utf8_after_ascii(s.drop_first(), (k - 1) as nat);
+        assert((s[0] as u32) < 128);
+        assert forall|i: int| 0 <= i < k implies #[trigger] utf8(s)[i] == s[i] as u8 by {
+            if i > 0 { assert(utf8(s)[i] == utf8(s.drop_first())[i - 1]); assert(s[i] == s.drop_first()[i - 1]); }
+        }
+        assert(utf8(s)[k as int] == utf8(s.drop_first())[k - 1]);
+        assert(s[k as int] == s.drop_first()[k - 1]);
+    }
+}
+pub proof fn lemma_utf8_len_ge(s: Seq<char>)
+    ensures utf8(s).len() >= s.len(),
+    decreases s.len(),
+{
+    if s.len() > 0 { lemma_enc(s[0]); lemma_utf8_len_ge(s.drop_first()); }
+}
+/// character-level reading of BufferQueue::eat's byte-level answer on the raw view `v`
+pub proof fn lemma_eat_chars<F: Fn(&u8, &u8) -> bool>(v: Seq<char>, pb: Seq<u8>, pc: Seq<char>, eq: F, ci: bool, r: Option<bool>)
+    requires
+        pat_ok(pc), ci ==> pat_lower(pc), pb.len() == pc.len(), forall|i: int| 0 <= i < pc.len() ==> #[trigger] pb[i] == pc[i] as u8,
+        eq_is(eq, ci), eat_result(utf8(v), pb, eq, r),
+    ensures
+        r == Some(true) ==> v.len() >= pc.len() && full_match(v.take(pc.len() as int), pc, ci),
+        r == Some(false) ==> exists|k: int| 0 <= k < pc.len() && k < v.len() && pre_match(v.take(k), pc, ci)
+            && !ch_eq(#[trigger] v[k], pc[k], ci) && (v[k] == '\r' || v[k] == '\n' || !ch_eq(v[k], pc[k], ci)),
+        r is None ==> v.len() < pc.len() && pre_match(v, pc, ci),
+{
+    let b = utf8(v);
+    lemma_utf8_len_ge(v);
+    // every matched byte is ASCII (because the pattern is) and is the character itself
+    let m: int = match r { Some(true) => pb.len() as int, Some(false) => choose|k: int| 0 <= k < pb.len() && k < b.len()
+            && (forall|i: int| 0 <= i < k ==> #[trigger] eq_at(eq, b, pb, i, true)) && eq_at(eq, b, pb, k, false), None => b.len() as int };
+    assert forall|i: int| 0 <= i < m implies #[trigger] b[i] < 128 && (if ci { lower_u8(b[i]) == lower_u8(pb[i]) } else { b[i] == pb[i] }) by {
+        assert(eq_at(eq, b, pb, i, true));
+        assert(eq.ensures((&b[i], &pb[i]), true));
+        assert((pc[i] as u32) < 128);
+    }
+    lemma_ascii_prefix(v, m as nat);
+    assert forall|i: int| 0 <= i < m implies ch_eq(#[trigger] v[i], pc[i], ci) by {
+        assert(b[i] < 128 && (if ci { lower_u8(b[i]) == lower_u8(pb[i]) } else { b[i] == pb[i] }));
+        assert(b[i] == v[i] as u8);
+        assert(ci ==> !is_upper(pc[i]));
+    }
+    match r {
+        Some(true) => {
+            assert forall|i: int| 0 <= i < v.take(m).len() implies (if ci { lower(#[trigger] v.take(m)[i]) == pc[i] } else { v.take(m)[i] == pc[i] }) by {
+                assert(v.take(m)[i] == v[i]); assert(ch_eq(v[i], pc[i], ci));
+            }
+        },
+        Some(false) => {
+            assert(m < v.len()) by { lemma_utf8_empty(v.skip(m)); lemma_utf8_concat(v.take(m), v.skip(m)); assert(v =~= v.take(m) + v.skip(m)); }
+            lemma_utf8_after_ascii(v, m as nat);
+            assert(eq_at(eq, b, pb, m, false));
+            assert(eq.ensures((&b[m], &pb[m]), false));
+            assert(!ch_eq(v[m], pc[m], ci)) by {
+                assert((pc[m] as u32) < 128 && (ci ==> !is_upper(pc[m])));
+                if (v[m] as u32) < 128 { assert(b[m] == v[m] as u8); }
+            }
+            assert forall|i: int| 0 <= i < v.take(m).len() implies (if ci { lower(#[trigger] v.take(m)[i]) == pc[i] } else { v.take(m)[i] == pc[i] }) by {
+                assert(v.take(m)[i] == v[i]); assert(ch_eq(v[i], pc[i], ci));
+            }
+        },
+        None => {
+            assert(v.len() == m) by {
+                if m < v.len() { lemma_utf8_concat(v.take(m), v.skip(m)); assert(v =~= v.take(m) + v.skip(m)); lemma_utf8_empty(v.skip(m)); }
+            }
+            assert forall|i: int| 0 <= i < v.len() implies (if ci { lower(#[trigger] v[i]) == pc[i] } else { v[i] == pc[i] }) by {
+                assert(ch_eq(v[i], pc[i], ci));
+            }
+        },
+    }
+}
+
+pub proof fn lemma_norm_prefix(v: Seq<char>, k: int)
+    requires 0 <= k <= v.len(), no_crlf(v.take(k)),
+    ensures norm(false, v) == v.take(k) + norm(false, v.skip(k)),
+{
+    assert(v =~= v.take(k) + v.skip(k));
+    lemma_norm_plain(v.take(k), v.skip(k));
+}
+pub proof fn lemma_pre_match_no_crlf(l: Seq<char>, p: Seq<char>, ci: bool)
+    requires pre_match(l, p, ci), pat_ok(p),
+    ensures no_crlf(l),
+{
+    assert forall|i: int| 0 <= i < l.len() implies #[trigger] l[i] != '\r' && l[i] != '\n' by {
+        assert(if ci { lower(l[i]) == p[i] } else { l[i] == p[i] });
+        assert((p[i] as u32) < 128 && p[i] != '\n' && p[i] != '\r');
+    }
+}
+/// from the raw comparison of v to the comparison of its normalisation
+pub proof fn lemma_look_norm(v: Seq<char>, pc: Seq<char>, ci: bool, r: Option<bool>)
+    requires pat_ok(pc),
+        r == Some(true) ==> v.len() >= pc.len() && full_match(v.take(pc.len() as int), pc, ci),
+        r == Some(false) ==> exists|k: int| 0 <= k < pc.len() && k < v.len() && pre_match(v.take(k), pc, ci) && !ch_eq(#[trigger] v[k], pc[k], ci),
+        r is None ==> v.len() < pc.len() && pre_match(v, pc, ci),
+    ensures
+        r == Some(true) ==> m_true(norm(false, v), pc, ci) && norm(false, v).skip(pc.len() as int) == norm(false, v.skip(pc.len() as int)),
+        r == Some(false) ==> m_false(norm(false, v), pc, ci),
+        r is None ==> m_none(norm(false, v), pc, ci) && norm(false, v) == v,
+{
+    let n = norm(false, v);
+    let m = pc.len() as int;
+    match r {
+        Some(true) => {
+            lemma_pre_match_no_crlf(v.take(m), pc, ci);
+            lemma_norm_prefix(v, m);
+            assert(n.take(m) =~= v.take(m));
+            assert(n.skip(m) =~= norm(false, v.skip(m)));
+        },
+        Some(false) => {
+            let k = choose|k: int| 0 <= k < pc.len() && k < v.len() && pre_match(v.take(k), pc, ci) && !ch_eq(#[trigger] v[k], pc[k], ci);
+            lemma_pre_match_no_crlf(v.take(k), pc, ci);
+            lemma_norm_prefix(v, k);
+            reveal_with_fuel(norm, 2);
+            let w = v.skip(k);
+            assert(w[0] == v[k]);
+            let nk = norm(false, w);
+            assert(nk.len() > 0 && (nk[0] == v[k] || (v[k] == '\r' && nk[0] == '\n')));
+            assert(n[k] == nk[0]);
+            assert(!ch_eq(n[k], pc[k], ci)) by { assert(pc[k] != '\n' && (pc[k] as u32) < 128); }
+            assert(n.len() > k);
+            if m_true(n, pc, ci) { assert(n.take(m)[k] == n[k]); assert(if ci { lower(n.take(m)[k]) == pc[k] } else { n.take(m)[k] == pc[k] }); }
+            if m_none(n, pc, ci) { assert(if ci { lower(n[k]) == pc[k] } else { n[k] == pc[k] }); }
+        },
+        None => {
+            lemma_pre_match_no_crlf(v, pc, ci);
+            assert(v.take(v.len() as int) =~= v);
+            lemma_norm_prefix(v, v.len() as int);
+            reveal_with_fuel(norm, 2);
+            assert(v.skip(v.len() as int) =~= Seq::<char>::empty());
+            assert(n =~= v);
+        },
+    }
+}
+
+pub proof fn lemma_viable_no_crlf(a: AbsTok)
+    requires look_viable(a),
+    ensures no_crlf(a.temp),
+{
+    lemma_pats();
+    let l = a.temp;
+    if a.state == State::MarkupDeclarationOpen {
+        if pre_match(l, pat_dashdash(), false) && l.len() < 2 { lemma_pre_match_no_crlf(l, pat_dashdash(), false); }
+        else if pre_match(l, pat_doctype(), true) && l.len() < 7 { lemma_pre_match_no_crlf(l, pat_doctype(), true); }
+        else { assert forall|i: int| 0 <= i < l.len() implies #[trigger] l[i] != '\r' && l[i] != '\n' by { assert(l[i] == pat_cdata()[i]); } }
+    } else {
+        if pre_match(l, pat_public(), true) { lemma_pre_match_no_crlf(l, pat_public(), true); } else { lemma_pre_match_no_crlf(l, pat_system(), true); }
+    }
+}
+/// everything Tokenizer::eat needs to know, from the state before the call (a, ig0, v0), the state after its
+/// pending-CR block (ig1, v1) and BufferQueue::eat's answer r0 on the queue temp + v1
+pub proof fn lemma_eat_post<F: Fn(&u8, &u8) -> bool>(a: AbsTok, ig0: bool, v0: Seq<char>, ig1: bool, v1: Seq<char>, pat: &str, eq: F, ci: bool, r0: Option<bool>)
+    requires
+        look_viable(a), ig0 ==> a.temp.len() == 0, pat_ok(pat@), eq_is(eq, ci), ci ==> pat_lower(pat@),
+        (ig0 && v0.len() > 0) ==> !ig1 && v1 == (if v0[0] == '\n' { v0.drop_first() } else { v0 }),
+        (ig0 && v0.len() == 0) ==> ig1 && v1 == v0,
+        !ig0 ==> !ig1 && v1 == v0,
+        eat_result(utf8(a.temp + v1), pat.spec_bytes(), eq, r0),
+    ensures ({
+        let n = a.temp + norm(ig0, v0);
+        let v2 = a.temp + v1;
+        let m = pat@.len() as int;
+        &&& norm(ig1, v2) == n
+        &&& (ig1 ==> n.len() == 0 && v2.len() == 0)
+        &&& (r0 == Some(true) ==> m_true(n, pat@, ci) && v2.len() >= m && norm(false, v2.skip(m)) == n.skip(m))
+        &&& (r0 == Some(false) ==> m_false(n, pat@, ci))
+        &&& (r0 is None ==> m_none(n, pat@, ci) && v2 == n)
+    }),
+{
+    let n = a.temp + norm(ig0, v0);
+    let v2 = a.temp + v1;
+    reveal_with_fuel(norm, 2);
+    lemma_viable_no_crlf(a);
+    assert forall|i: int| 0 <= i < pat@.len() implies (#[trigger] pat@[i] as u32) < 128 by {}
+    axiom_ascii_bytes(pat);
+    if v0.len() > 0 { assert(v0 =~= seq![v0[0]] + v0.drop_first()); }
+    // the pending-CR block leaves the normalised pending input unchanged
+    assert(norm(ig1, v1) =~= norm(ig0, v0));
+    if ig1 {
+        assert(v2 =~= Seq::<char>::empty());
+        assert(n =~= Seq::<char>::empty());
+        assert(norm(ig1, v2) =~= n);
+    } else {
+        lemma_norm_plain(a.temp, v1);
+        assert(norm(false, v2) =~= n);
+    }
+    lemma_eat_chars(v2, pat.spec_bytes(), pat@, eq, ci, r0);
+    lemma_look_norm(v2, pat@, ci, r0);
+    if ig1 {
+        // empty queue: BufferQueue::eat can only have answered None
+        lemma_utf8_empty(v2);
+        assert(r0 is None);
+        assert(m_none(n, pat@, ci));
+    }
+}
+
+// ---- what the look-ahead arms of `step` use ----
+pub open spec fn mdo_pat(a: AbsTok, p: Seq<char>, ci: bool) -> bool {
+    (p == pat_dashdash() && !ci) || (p == pat_doctype() && ci) || (p == pat_cdata() && !ci && sink_cdata_ok(a.out))
+}
+pub proof fn lemma_mdo_true(a: AbsTok, p: Seq<char>, pat: Seq<char>, ci: bool)
+    requires look_viable(a), a.state == State::MarkupDeclarationOpen, mdo_pat(a, pat, ci), m_true(a.temp + p, pat, ci),
+    ensures run(a, p) == run(mdo_target(a, (a.temp + p).take(pat.len() as int)), (a.temp + p).skip(pat.len() as int)),
+{
+    lemma_pats();
+    let n = a.temp + p;
+    let m = pat.len() as int;
+    let h = n.take(m);
+    assert(h[0] == n[0]);
+    // the buffered look-ahead is a proper prefix of this very pattern
+    assert(a.temp.len() < m) by {
+        if a.temp.len() >= m {
+            assert(a.temp[0] == n[0]);
+            assert(h =~= a.temp.take(m));
+            assert forall|i: int| 0 <= i < m implies a.temp[i] == #[trigger] h[i] by {}
+        }
+    }
+    let q = p.take(m - a.temp.len());
+    assert(a.temp + q =~= h);
+    assert(p =~= q + p.skip(m - a.temp.len()));
+    assert(p.skip(m - a.temp.len()) =~= n.skip(m));
+    lemma_mdo_hit(a, q);
+    lemma_run_concat(a, q, n.skip(m));
+}
+pub proof fn lemma_reprocess_bogus_state(b: AbsTok, l: Seq<char>)
+    requires b.state == State::BogusComment, forall|i: int| 0 <= i < l.len() ==> #[trigger] l[i] != '>',
+    ensures reprocess(b, l).state == State::BogusComment, reprocess(b, l).cr == b.cr, reprocess(b, l).recons == b.recons,
+    decreases l.len(),
+{
+    reveal_with_fuel(reprocess, 2); reveal(s_simple); reveal(s_bogus_comment);
+    if l.len() > 0 {
+        assert(l[0] != '>');
+        assert forall|i: int| 0 <= i < l.drop_first().len() implies #[trigger] l.drop_first()[i] != '>' by { assert(l.drop_first()[i] == l[i + 1]); }
+        lemma_reprocess_bogus_state(s_simple(b, l[0]), l.drop_first());
+    }
+}
+/// end of input while the look-ahead is still undecided: the tokenizer has already fallen back to the bogus
+/// comment state, the standard does so at EOF; what remains to be emitted is the same
+pub proof fn lemma_mdo_eof(a: AbsTok, p: Seq<char>)
+    requires look_viable(a), a.state == State::MarkupDeclarationOpen, mdo_viable(a, a.temp + p),
+    ensures eof_close(run(a, p)) == eof_close(run(bogus_init(a), a.temp + p)),
+{
+    lemma_pats();
+    let n = a.temp + p;
+    lemma_mdo_feed(a, p);
+    let x = AbsTok { temp: n, ..a };
+    let b = bogus_init(a);
+    assert(bogus_init(x) == b);
+    assert forall|i: int| 0 <= i < n.len() implies #[trigger] n[i] != '>' && n[i] != '\n' by {
+        if pre_match(n, pat_dashdash(), false) && n.len() < 2 { lemma_viable_chars(n, pat_dashdash(), false, i); }
+        else if pre_match(n, pat_doctype(), true) && n.len() < 7 { lemma_viable_chars(n, pat_doctype(), true, i); }
+        else { lemma_viable_chars(n, pat_cdata(), false, i); }
+    }
+    reveal(eof_step1);
+    let y = run(b, n);
+    if n.len() == 0 {
+        reveal_with_fuel(run, 1); reveal_with_fuel(reprocess, 1);
+        assert(y == b);
+        assert(eof1(x) == y);
+    } else {
+        lemma_bogus_reprocess(b, n);
+        assert(pre_step(b, n.last()) == b);
+        assert(eof1(x) == y);
+    }
+    lemma_reprocess_bogus_state(b, n);
+    if n.len() == 0 { reveal_with_fuel(reprocess, 1); }
+    assert(y.state == State::BogusComment);
+    // BogusComment --eof--> Data, which is a fixpoint of eof1
+    assert(eof1(eof1(y)) == eof1(y));
+}
+pub open spec fn adn_pat(p: Seq<char>) -> bool { p == pat_public() || p == pat_system() }
+pub proof fn lemma_adn_true(a: AbsTok, p: Seq<char>, pat: Seq<char>)
+    requires look_viable(a), a.state == State::AfterDoctypeName, adn_pat(pat), m_true(a.temp + p, pat, true),
+    ensures run(a, p) == run(adn_target(a, (a.temp + p).take(pat.len() as int)), (a.temp + p).skip(pat.len() as int)),
+{
+    lemma_pats();
+    let n = a.temp + p;
+    let m = pat.len() as int;
+    let h = n.take(m);
+    assert(h[0] == n[0]);
+    assert(a.temp.len() < m);
+    let q = p.take(m - a.temp.len());
+    assert(a.temp + q =~= h);
+    assert(p =~= q + p.skip(m - a.temp.len()));
+    assert(p.skip(m - a.temp.len()) =~= n.skip(m));
+    lemma_adn_hit(a, q);
+    lemma_run_concat(a, q, n.skip(m));
+}
+/// end of input with an undecided keyword look-ahead (e.g. "<!DOCTYPE x pub" EOF)
+pub proof fn lemma_adn_eof(a: AbsTok, p: Seq<char>)
+    requires look_viable(a), a.state == State::AfterDoctypeName, adn_viable(a.temp + p), (a.temp + p).len() > 0,
+    ensures eof_close(run(a, p)) == eof_close(run(bogusdt_init(a), a.temp + p)),
+{
+    lemma_pats();
+    let n = a.temp + p;
+    lemma_adn_feed(a, p);
+    let x = AbsTok { temp: n, ..a };
+    let b = bogusdt_init(a);
+    assert forall|i: int| 0 <= i < n.len() implies #[trigger] n[i] != '>' && n[i] != '\n' by {
+        if pre_match(n, pat_public(), true) { lemma_viable_chars(n, pat_public(), true, i); }
+        else { lemma_viable_chars(n, pat_system(), true, i); }
+    }
+    lemma_bogusdt_reprocess(b, n);
+    assert(pre_step(b, n.last()) == b);
+    lemma_reprocess_bogusdt(b, n);
+    reveal(eof_step1);
+    assert(run(b, n) == b);
+    assert(eof1(x) == eof1(b));
+}
+pub proof fn lemma_reprocess_bogusdt(b: AbsTok, l: Seq<char>)
+    requires b.state == State::BogusDoctype, forall|i: int| 0 <= i < l.len() ==> #[trigger] l[i] != '>',
+    ensures reprocess(b, l) == b,
+    decreases l.len(),
+{
+    reveal_with_fuel(reprocess, 2); reveal(s_simple); reveal(s_bogus_doctype);
+    if l.len() > 0 {
+        assert(l[0] != '>');
+        assert forall|i: int| 0 <= i < l.drop_first().len() implies #[trigger] l.drop_first()[i] != '>' by { assert(l.drop_first()[i] == l[i + 1]); }
+        lemma_reprocess_bogusdt(b, l.drop_first());
+    }
+}
+
+/// after DOCTYPE name with an empty look-ahead buffer: white space and '>'
+pub proof fn lemma_adn_char(a: AbsTok, c: char)
+    requires a.state == State::AfterDoctypeName, a.cr is None, a.temp.len() == 0,
+    ensures
+        is_ws(c) ==> spec_step(a, c) == pre_step(a, c),
+        c == '>' ==> spec_step(a, c) == st(emit_doctype(pre_step(a, c)), State::Data),
+{
+    reveal(spec_step); reveal(s_after_doctype_name);
+}
+/// the `_ =>` branch of the after-DOCTYPE-name arm: force-quirks and reconsume in the bogus DOCTYPE state
+pub proof fn lemma_adn_else(a1: AbsTok, c: char, rest: Seq<char>, eof: bool)
+    requires look_viable(a1), a1.state == State::AfterDoctypeName, a1.temp.len() == 0, !is_ws(c), c != '>',
+        m_false(seq![c] + rest, pat_public(), true) || (eof && m_none(seq![c] + rest, pat_public(), true)),
+        m_false(seq![c] + rest, pat_system(), true) || (eof && m_none(seq![c] + rest, pat_system(), true)),
+    ensures ({
+        let x = AbsTok { recons: true, ..bogusdt_init(pre_step(a1, c)) };
+        let lhs = run(a1, seq![c] + rest);
+        let rhs = run(spec_step(x, c), rest);
+        (if eof { eof_close(lhs) == eof_close(rhs) } else { lhs == rhs })
+    }),
+{
+    let n = seq![c] + rest;
+    let b = bogusdt_init(a1);
+    assert(a1.temp + n =~= n);
+    assert(a1.temp =~= Seq::<char>::empty());
+    lemma_run_cons(b, c, rest);
+    reveal(spec_step);
+    assert(c != '\n');
+    assert(spec_step(AbsTok { recons: true, ..bogusdt_init(pre_step(a1, c)) }, c) == spec_step(b, c));
+    if m_false(n, pat_public(), true) && m_false(n, pat_system(), true) {
+        assert(n[0] == c);
+        lemma_adn_miss(a1, n);
+    } else {
+        lemma_adn_eof(a1, n);
     }
 }
